@@ -126,6 +126,12 @@ def layouts(ctx):
     cmaps = {"http://x/main": ("example.com/cm", "cm/main.go"), "http://x/mid": ("example.com/cmid", "cmid/mid.go"), "http://x/leaf": ("example.com/cleaf", "cleaf/leaf.go")}
     out.append(("chain-typeless-middle", chain, cmaps, [["schemas/main.json"]], None))
     out.append(("chain-typeless-middle+decoys", dict(chain, **{"../lib/leaf.json": DECOY, "lib/leaf.json": DECOY, "schemas/leaf.json": DECOY}), cmaps, [["schemas/main.json"]], "chain-typeless-middle"))
+    # name parts that differ between the files only in the case of their non-initial letters (baseURL / url, userID / userId): the code generated for a
+    # file is the same whether it is processed alone, first or second
+    CA = {"$id": "http://x/ca", "type": "object", "properties": {"baseURL": {"type": "string"}, "userID": {"type": "integer"}, "htmlBody": {"type": "string"}}}
+    CB = {"$id": "http://x/cb", "type": "object", "properties": {"url": {"type": "string"}, "userId": {"type": "integer"}, "HTMLbody": {"type": "string"}, "Html": {"type": "boolean"}}}
+    out.append(("case-variants-across-files", {"ca.json": CA, "cb.json": CB}, {"http://x/ca": ("example.com/ca", "ca/ca.go"), "http://x/cb": ("example.com/cb", "cb/cb.go")},
+                [["ca.json", "cb.json"]], None))
     # two ids mapped to ONE file of one package under different spellings of its path: the file holds both schemas' code, in every order
     for si, (sp1, sp2) in enumerate((("pk/gen.go", "./pk/gen.go"), ("pk/gen.go", "pk/../pk/gen.go"), ("./pk//gen.go", "pk/gen.go"))):
         out.append(("one-file-two-spellings-%d" % si, {"p.json": P2, "q.json": Q2}, {"http://x/p": ("example.com/pk", sp1), "http://x/q": ("example.com/pk", sp2)},
